@@ -43,6 +43,10 @@ func (m *Machine) harnessAPI(fn *ssa.Function, a []Value) (Value, bool) {
 		m.assert(fromTerm(Or(c, pred)), msg)
 		m.assert(fromTerm(Or(c, Not(pred))), msg+" [known:"+id+"]")
 		return nil, true
+	case "vfOr":
+		return fromTerm(Or(toTerm(a[0]), toTerm(a[1]))), true
+	case "vfAnd":
+		return fromTerm(And(toTerm(a[0]), toTerm(a[1]))), true
 	case "vfReach":
 		m.reached = append(m.reached, m.constName(a[0]))
 		return nil, true
